@@ -4,7 +4,14 @@ package vrand
 
 type R struct{ s uint64 }
 
-func New(seed uint64) *R { return &R{s: seed*0x9E3779B97F4A7C15 + 0x1234567} }
+// New scrambles the seed first (neighbouring seeds must not give shifted copies of one stream).
+func New(seed uint64) *R {
+	z := seed + 0x1234567
+	z = (z ^ (z >> 30)) * 0xBF58476D1CE4E5B9
+	z = (z ^ (z >> 27)) * 0x94D049BB133111EB
+	z ^= z >> 31
+	return &R{s: z*0xD1342543DE82EF95 + 0x9E3779B97F4A7C15}
+}
 
 func (r *R) U64() uint64 {
 	r.s += 0x9E3779B97F4A7C15
